@@ -24,6 +24,12 @@ def obligations(tier):
            '15^3 = 3375 histories', [F['del'], F['clean'], 'replicat.repository:Repository.snapshot', 'replicat.repository:Repository.restore'],
            module=Hh, func='h3', timeout=900, shards=12),
         Ob('H3u', 'E', 'same on an unencrypted repository', 'every 3rd of 3375 histories', [F['del'], F['clean']], module=Hh, func='h3u', timeout=900, shards=4),
+        Ob('E.overlap', 'E', 'two non-destructive commands overlapping in time on one store (two snapshots by two clients / on one client object, snapshot || restore, snapshot || listings; backend calls interleaved by 4 latency patterns): every snapshot restores exactly, the overlapped restore is exact',
+           '4 kinds x 4 user pairs x 4x4 file sets x 4 latency patterns x concurrency {1,3} = 2048', ['replicat.repository:Repository.snapshot', 'replicat.repository:Repository.restore', 'replicat.repository:Repository._load_snapshots'],
+           module=Hh, func='e_overlap', timeout=900, shards=4),
+        Ob('E.remote', 'E', 'the same commands through the real S3-compatible and B2 adapters against the fake services (B2: bucket named or given by id, key unrestricted or restricted; every upload a new version; the response to the j-th upload lost after the service stored it): init, snapshot F0, F1, F0 again (uploads nothing), delete the first, restore the listed ones, clean (objects == referenced)',
+           '2 adapters x 4 bucket spellings x 9 lost-response positions x concurrency {1,3} x encrypted/not = 288', ['replicat.backends.b2:B2.exists', 'replicat.backends.b2:B2.delete', 'replicat.backends.b2:B2.upload_stream', 'replicat.backends.s3c:S3Compatible.exists', 'replicat.repository:Repository.snapshot', 'replicat.repository:Repository.delete_snapshots'],
+           module='vt.harness.remote', func='e_remote_history', timeout=900, shards=4),
         Ob('E.listfault', 'E', 'Local repository with snapshots of A/B/C: clean or delete while the j-th directory scan of the command fails (EIO/EACCES): every snapshot still in the store keeps all its chunk objects (the command may raise)',
            '3 callers x clean/delete x 32 fault positions x 2 error types x 2 data combinations = 768', [F['del'], F['clean'], 'replicat.backends.local:Local.list_files', 'replicat.utils.fs:iterative_scandir'],
            module=Hh, func='e_gc_list_fault', timeout=900, shards=4),
